@@ -126,6 +126,7 @@ class RepoInterp:
         may_fork: Iterable[str] = (),
         call_hook: Optional[Callable[..., Optional[V]]] = None,
         max_depth: int = 4,
+        heap: bool = False,
     ) -> None:
         self.repo = repo
         self.fi = fi
@@ -134,6 +135,7 @@ class RepoInterp:
         self.may_fork = set(may_fork)
         self.call_hook = call_hook
         self.max_depth = max_depth
+        self.heap = heap
         self.depth = 0
         self.cur_fi = fi
         self.forked: List[str] = []
@@ -190,6 +192,8 @@ class RepoInterp:
         sub = State()
         sub.effects = st.effects  # shared: effects of the callee are effects of the caller
         sub.assume = st.assume
+        sub.heap = st.heap
+        sub._next = st._next
         is_method = callee.cls is not None and params and params[0] in ("self", "cls")
         if is_method:
             sub.env[params[0]] = fval if fval is not None else S("self")
@@ -242,6 +246,7 @@ class _OracleInterp(Interp):
             on_attr=owner.on_attr,
             on_call=owner.on_call,
             on_subscript=owner.on_subscript,
+            heap=owner.heap,
         )
         self.owner = owner
 
